@@ -240,6 +240,10 @@ fn subscribe_replay() {
             let (_, a) = pt.add_assignment("global", table::PolicyDirection::Import, table::Disposition::Accept, vec!["p".into()]).unwrap();
             tm.import_policy.store(Some(a));
         }
+        if head.get(3) == Some(&"1") {
+            // peer p1's next hop is unreachable for the whole behaviour
+            tm.update_nexthop_validity(IpAddr::V4(Ipv4Addr::new(192, 0, 2, 1)), false);
+        }
         *SCHED.lock().unwrap() = Some(Sched { parked: HashMap::new(), go: Default::default(), done: Default::default() });
         let tids: HashMap<&str, usize> = [("t1", 1usize), ("t2", 2), ("u1", 3), ("u2", 4)].into_iter().collect();
         let mut handles = Vec::new();
@@ -491,6 +495,26 @@ fn fib_replay() {
             "nhflip" => {
                 let nh = nhs.iter().find(|n| n.0 == t[1]).unwrap().1;
                 tm.update_nexthop_validity(nh, t[2] == "1");
+            }
+            "softreset" => {
+                // soft reset IN under an import policy that (besides rejecting what it rejected before) sets the next hop;
+                // such a policy can only be built as an export-direction assignment (build_assignment refuses next-hop actions
+                // for the import direction).  The plain policy is put back afterwards so that later announcements are not
+                // rewritten.
+                let plain = tm.import_policy.load_full();
+                if t[2] != "keep" {
+                    let to = nhs.iter().find(|n| n.0 == t[2]).unwrap().1;
+                    let mut pt = table::PolicyTable::new();
+                    pt.add_defined_set(table::DefinedSetConfig::Community { name: "rej".into(), patterns: vec!["65000:777".into()] }).unwrap();
+                    pt.add_statement("s", vec![table::ConditionConfig::CommunitySet("rej".into(), table::MatchOption::Any)], Some(table::Disposition::Reject), table::Actions::default()).unwrap();
+                    let acts = table::Actions { nexthop: Some(table::NexthopAction::Address(to)), ..Default::default() };
+                    pt.add_statement("n", vec![], None, acts).unwrap();
+                    pt.add_policy("p", vec!["s".into(), "n".into()]).unwrap();
+                    let (_, a) = pt.add_assignment("global", table::PolicyDirection::Export, table::Disposition::Accept, vec!["p".into()]).unwrap();
+                    tm.import_policy.store(Some(a));
+                }
+                tm.soft_reset_in(peer_addr(t[1]));
+                tm.import_policy.store(plain);
             }
             x => panic!("harness: op {x}"),
         }
